@@ -182,3 +182,64 @@ class Keep(Contract):
             # {q < v} subset of kept subset of {q <= v}: equality with the threshold is left open
             out['kept_set'] = c.forall(M, lambda k: band(implies(q(k) < number, k < p), implies(k < p, q(k) <= number)), 'kept_set')
         return out
+
+
+# ---------------------------------------------------------------------------------------------
+# FitInfo.filter_table (C09): parameter rows follow the fit ranking
+# ---------------------------------------------------------------------------------------------
+
+@contract
+class FilterTable(Contract):
+    """FitInfo.filter_table(table, additional): on normal return row i of the result is an ENTIRE row of
+    the input table (every column from the same input row) whose MODEL_NAME is the name of fit i, for any
+    row order of the input; additional parameters are attached by stripped model name; the input table and
+    the fit are not modified.  Anything else is an exception (never a silently wrong row)."""
+    name = FITINFO + '.filter_table'
+    properties = ('C09', 'C08')
+    variants = ('plain', 'additional')
+    modifies = ()
+
+    def setup(self, c, variant):
+        import z3
+        from sedvc.extmodels import table_new
+        from sedvc.sym import to_z3
+        M, R = c.int('n_fits'), c.int('n_rows')
+        c.assume([M >= 0, R >= 0])
+        fi = make_fitinfo(c, M, c.int('N'), prefix='fi')
+        self.cols = dict(MODEL_NAME=c.array('tab_name', (R,), 'int'), par1=c.array('tab_par1', (R,)), par2=c.array('tab_par2', (R,)))
+        table = table_new(c.st, self.cols, R)
+        self.root = c.st.heap[table.addr].attrs['@root']
+        add = {}
+        if variant == 'additional':
+            ADD = z3.Function('ADDITIONAL_extra', z3.IntSort(), z3.RealSort())
+            self.add_fn = lambda code: Sc(ADD(to_z3(code, 'int')))
+            add['extra'] = c.obj('<fnmap>', fn=self.add_fn)
+        return dict(self=fi, input_table=table, additional=c.dict(add))
+
+    def raises(self, c, a):
+        return {'Exception': ('may', True), 'IndexError': ('may', True)}
+
+    def ensures(self, c, a, result, old):
+        from sedvc.extmodels import is_table, strip_code
+        if not is_table(c.st, result):
+            return {'returns_a_table': False}
+        cell = c.st.heap[result.addr]
+        cols, n, origin = cell.attrs['@cols'], cell.attrs['@n'], cell.attrs['@origin']
+        names = c.A(c.attr(a.self, 'model_name'))
+        M = names.n
+        R = c.A(self.cols['MODEL_NAME']).n
+        out = {'taken_from_the_input_table': cell.attrs['@root'] == self.root,
+               'one_row_per_fit': compare('==', n, M),
+               'row_of_fit_i_is_named_like_fit_i': c.forall(M, lambda i: c.A(cols['MODEL_NAME'])[i] == names[i], 'name'),
+               'source_row_exists': c.forall(M, lambda i: band(origin(i) >= 0, origin(i) < R), 'origin in range')}
+        for k, v in self.cols.items():
+            if k not in cols:
+                out['column_kept(%s)' % k] = False
+                continue
+            out['entire_row(%s)' % k] = c.forall(M, (lambda O, I: lambda i: O[i] == I[origin(i)])(c.A(cols[k]), c.A(v)), 'row')
+        extra = [k for k in cols if k not in self.cols]
+        if hasattr(self, 'add_fn') and c.st.heap[a.additional.addr].items:
+            out['additional_by_name'] = ('extra' in cols) and c.forall(M, lambda i: c.A(cols['extra'])[i] == self.add_fn(strip_code(names[i])), 'additional')
+            extra = [k for k in extra if k != 'extra']
+        out['no_other_columns'] = not extra
+        return out
